@@ -68,7 +68,7 @@ def cases(draw):
             wakes = [{"op": "line", "text": "5;255;3;0;32;500" if version == "2.2" else "5;255;3;0;22;8"}]
             ops += [{"op": "idreq", "src": 5, "child": 255}, {"op": "tick"}] + wakes + [{"op": "restart"}] + wakes
         ops += [{"op": "idreq", "src": 255, "child": 255}, {"op": draw(st.sampled_from(["tick", "restart"]))}, {"op": "restart"}, {"op": "idreq", "src": 255, "child": 255}]
-    return {"version": version, "ext": ext, "ops": ops}
+    return {"version": version, "ext": ext, "ops": ops, "dir": draw(st.sampled_from(["", "", "conf.d", ".config", "gateway.bak"]))}
 
 
 def check_case(case, stats=None):
@@ -81,6 +81,10 @@ def check_case(case, stats=None):
     barrier_since_request = False
     with persist.Scratch() as tmp, persist.TimerPatch() as fake:
         path = os.path.join(tmp, f"net.{case['ext']}")
+        if case.get("dir"):
+            # the persistence file lives below a directory with a dot in its own name
+            os.makedirs(os.path.join(tmp, case["dir"]))
+            path = os.path.join(tmp, case["dir"], f"net.{case['ext']}")
         life = persist.Lifetime(fake, version, path)
         for i, op in enumerate(case["ops"]):
             kind = op["op"]
